@@ -68,6 +68,7 @@ fn main() {
     std::panic::set_hook(Box::new(|_| {}));
     let rc = match argv[1].as_str() {
         "c01" => c01::run(&args),
+        "c01one" => c01::run_one_hex(&args),
         "c01w" => c01::worker(&args),
         "c02" => c02::run(&args),
         "c02t" => c02::run_traces(&args),
